@@ -19,7 +19,9 @@ META = dict(
          "failing input).",
     note="trusted: Coq kernel, extraction (ExtrOcamlBasic only), the hand-written models (tied by sampling, not proof), the "
          "harness (scripted base socket semantics, painting of uninitialised memory, interposed g_socket_send_message). The "
-         "RFC 4571 framing inside agent.c belongs to C02 and is not part of this check.",
+         "RFC 4571 reassembly inside agent.c is proved under C02 (coq/Data); this check adds the wake-flag theorems over that model (Data/WakeProofs.v, "
+         "statement shape of agent_consume_next_rfc4571_chunk checked on every run) and reads ICE-TCP frames over a real loopback TCP connection through "
+         "the component's pollable input stream (harness/data_h.c op I), judging delivery without the model.",
     technique="Coq proof over executable models + extracted-model/implementation differential correspondence")
 
 FINISH = dict(
